@@ -691,7 +691,7 @@ Fixpoint trace (w : world) (ops : list op) : list (world * option err) :=
    Operations that hand an EXISTING Parameter object to a second owner (add_param(p), map_param(p),
    ParameterSet(params=...)) and the two-step protocol change_fixed_value / update_fixed_param_value_cache.
    They are kept apart from `op`: the invariant WorldOk is proved for `op` histories and is REFUTED as soon
-   as one of these is used (known findings C04-shared-parameter, C04-change-fixed-value). *)
+   as one of these is used (known finding C04-shared-parameter; change_fixed_value needs the documented update_fixed_param_value_cache). *)
 Inductive xop :=
 | XBase (o : op)
 | XAddShared (n : nat) (front : bool) (r : sref) (k : Z)      (* sets[n].add_param(r.params[k], atfront) *)
